@@ -331,6 +331,7 @@ func runList(t *testing.T, rc *RunCtx) {
 		"Wallet1/acc10?", "Wallet1/acc1?0?", "Wallet1/accx*1", "Wallet1/acc1{0,2}", "Wallet1/Ac*c2", "Wallet1/made1?[0-9]", "Wallet2/val-?1?.*", "Wallet1/x?acc1", "Wallet1/[unclosed", "wallet1", "Wallet1/ACC1", "Wallet1/^acc1$", "Dist"}
 	rounds := 4 + ch.Pick(10, 0)
 	var desc []string
+	maybe := map[string]bool{} // accounts whose creation was abandoned by the client and not reported as done
 	// Creations and listings concentrate on one wallet, so that create / list / create / list sequences on the
 	// same wallet are common.
 	focus := permWallets[ch.Pick(len(permWallets), 0)].Name
@@ -344,11 +345,40 @@ func runList(t *testing.T, rc *RunCtx) {
 			}
 			w.created++
 			name := fmt.Sprintf("made%d", w.created)
-			res, err := inst.AcctH.Generate(inst.ClientCtx(creator, ""), &pb.GenerateRequest{Account: wl + "/" + name, Passphrase: []byte("pass"), Participants: 1, SigningThreshold: 1})
+			// A fifth of the creating clients go away while the instance is still at work on their request: the
+			// request context is cancelled at the k-th operation on the wallet store (or right at the start).
+			cctx := inst.ClientCtx(creator, "")
+			abandoned := false
+			if ch.Pick(5, 0) == 4 {
+				var cancel context.CancelFunc
+				cctx, cancel = context.WithCancel(cctx)
+				defer cancel()
+				at, seen := ch.Pick(4, 0), 0
+				abandoned = true
+				if at == 0 {
+					cancel()
+				}
+				w.n.StoreHook = func(op string) {
+					seen++
+					if seen == at {
+						cancel()
+					}
+				}
+				rc.Stats.Inc("creations_abandoned_by_their_client", 1)
+			}
+			res, err := inst.AcctH.Generate(cctx, &pb.GenerateRequest{Account: wl + "/" + name, Passphrase: []byte("pass"), Participants: 1, SigningThreshold: 1})
+			w.n.StoreHook = nil
 			if err == nil && res.GetState() == pb.ResponseState_SUCCEEDED {
 				all = append(all, acct{wl, name, res.GetPublicKey()})
 				rc.Stats.Inc("accounts_created_through_dirk", 1)
 				desc = append(desc, "create "+wl+"/"+name)
+				if abandoned {
+					rc.Stats.Inc("abandoned_creations_reported_as_succeeded", 1)
+					desc[len(desc)-1] += " (client gone)"
+				}
+			} else if abandoned {
+				// Not reported as created: the account may exist or not; a listing may show it or not.
+				maybe[wl+"/"+name] = true
 			}
 		}
 		client := w.pickClient()
@@ -387,6 +417,8 @@ func runList(t *testing.T, rc *RunCtx) {
 				}
 			}
 			switch {
+			case known == nil && maybe[name]:
+				rc.Stats.Inc("listed_account_of_an_abandoned_creation", 1)
 			case known == nil:
 				rc.Violate("C18", "unknown-account-listed", fmt.Sprintf("client %q paths %q: %s is not an account of this instance", client, paths, name), r)
 			case !requestedWallets[wn]:
